@@ -464,11 +464,13 @@ func New(spec Spec) (*Env, error) {
 	return e, nil
 }
 
-// Close releases the stores.  The atomix test client starts its in-process gRPC services in
-// goroutines that call os.Exit(1) when Serve finds the server already stopped, so a client must
-// not be closed right after it was created: closing is deferred a little.
+// Close releases the stores.  The atomix test client starts one in-process gRPC service per
+// primitive (also for the configuration store's side maps, created on first use) in a goroutine
+// that calls os.Exit(1) when Serve finds the server already stopped, so a client must not be
+// closed before the goroutines of its latest primitives got to run: closing is deferred by a few
+// seconds (a loaded machine schedules them late).
 func (e *Env) Close() {
-	time.AfterFunc(300*time.Millisecond, func() {
+	time.AfterFunc(8*time.Second, func() {
 		ctx := context.Background()
 		_ = e.RawTx.Close(ctx)
 		_ = e.Props.Close(ctx)
